@@ -165,6 +165,9 @@ class ModelError(Exception):
     pass
 
 
+RUNNER_ANSWER_S = 600
+
+
 class Runner:
     """Line-oriented conversation with the extracted model."""
 
@@ -188,6 +191,13 @@ class Runner:
         toks = [op] + wire.enc(arg)
         self.p.stdin.write((" ".join(map(str, toks)) + "\n").encode())
         self.p.stdin.flush()
+        # the model answers in milliseconds; a model that computes for minutes is a defect of the MODEL (e.g. an exponential
+        # definition) and must surface as an error of the harness, never as a check that hangs
+        import select
+        ready, _, _ = select.select([self.p.stdout], [], [], RUNNER_ANSWER_S)
+        if not ready and not self.p.stdout.peek(1):
+            self.p.kill()
+            raise ModelError(f"the extracted model did not answer op {op} within {RUNNER_ANSWER_S} s")
         line = self.p.stdout.readline()
         if not line:
             raise ModelError("runner died")
